@@ -18,7 +18,7 @@ def gen_spec(rng, ty=None, solvable=False, nmax=26):
     elif r < 0.75:
         n = rng.randint(3, 13)
     else:
-        n = rng.randint(14, nmax)
+        n = rng.randint(min(14, nmax), nmax)
     flags = {k: rng.random() < 0.6 for k in ("add_sw", "add_cr", "add_sf", "add_meat", "add_scp", "add_cs")}
     if rng.random() < 0.1:
         flags = {k: False for k in flags}
@@ -97,4 +97,107 @@ def perturb(spec, rng):
     if d[k]:
         j = rng.randrange(len(d[k]))
         d[k][j] = dy(rng, 0, 500)
+    return d
+
+
+def gen_targeted(rng, k):
+    """solvable instances aimed at structurally special branches of the LP builder (cycled by k)"""
+    t = k % 8
+    if t == 0:      # first-year-only stock regime, horizon past month 12, feed/biofuel charged in every month
+        d = gen_spec(rng, ty="to_humans", solvable=True, nmax=16)
+        n = rng.randint(15, 20)
+        d = _resize(d, n, rng)
+        d.update(store_years=False, add_sf=True, add_cr=True, sf0=dy(rng, 200, 2000))
+        d["crops_prod"] = [dy(rng, 100, 600) for _ in range(n)]
+        d["feed_charge"] = [dy(rng, 5, 25) for _ in range(n)]
+        d["biofuel_charge"] = [dy(rng, 1, 10) for _ in range(n)]
+    elif t == 1:    # same regime in the feed-maximising round with ceilings after month 12
+        d = gen_spec(rng, ty="to_animals", solvable=True, nmax=16)
+        n = rng.randint(15, 20)
+        d = _resize(d, n, rng)
+        d.update(store_years=False, add_sf=True, add_cr=True, sf0=dy(rng, 200, 2000))
+        d["crops_prod"] = [dy(rng, 100, 600) for _ in range(n)]
+        d["max_feed"] = sorted((dy(rng, 50, 400) for _ in range(n)), reverse=True)
+        d["max_biofuel"] = sorted((dy(rng, 10, 100) for _ in range(n)), reverse=True)
+    elif t == 2:    # meat with storage, slaughter late in the horizon, nonzero retail waste
+        d = gen_spec(rng, ty="to_humans", solvable=True, nmax=12)
+        n = d["NM"]
+        d.update(store_years=True, add_meat=True, w_meat=rng.choice([12.5, 25.0, 50.0]))
+        mm = [0.0] * n
+        for j in range(n // 2, n):
+            mm[j] = dy(rng, 20, 200)
+        _set_meat(d, mm)
+    elif t == 3:    # meat without storage, nonzero retail waste, meat is a large share of the food
+        d = gen_spec(rng, ty="to_humans", solvable=True, nmax=12)
+        n = d["NM"]
+        d.update(store_years=False, add_meat=True, w_meat=rng.choice([12.5, 25.0, 50.0]), add_cr=True)
+        _set_meat(d, [dy(rng, 50, 300) for _ in range(n)])
+        d["crops_prod"] = [dy(rng, 1, 20) for _ in range(n)]
+        d["feed_charge"] = [0.0] * n
+        d["biofuel_charge"] = [0.0] * n
+    elif t == 4:    # SCP / cellulosic sugar with binding output and nonzero waste, human caps wide open
+        d = gen_spec(rng, ty="to_humans", solvable=True, nmax=12)
+        n = d["NM"]
+        d.update(add_scp=True, add_cs=True, w_scp=rng.choice([12.5, 25.0]), w_cs=rng.choice([12.5, 25.0, 50.0]),
+                 cap_scp_h=100.0, cap_cs_h=100.0)
+        d["scp_prod"] = [dy(rng, 5, 60) for _ in range(n)]
+        d["cs_prod"] = [dy(rng, 5, 60) for _ in range(n)]
+        d["need"] = max(d["need"], 2000.0)
+    elif t == 5:    # feed round with resilient foods able to go to feed/biofuel and 100 % caps, zero charges
+        d = gen_spec(rng, ty="to_animals", solvable=True, nmax=12)
+        n = d["NM"]
+        d.update(add_scp=True, add_cs=True, cap_scp_f=100.0, cap_scp_b=100.0, cap_cs_f=100.0, cap_cs_b=100.0)
+        d["scp_prod"] = [dy(rng, 5, 60) for _ in range(n)]
+        d["cs_prod"] = [dy(rng, 5, 60) for _ in range(n)]
+        d["max_feed"] = [dy(rng, 100, 400)] * n
+        d["max_biofuel"] = [dy(rng, 50, 100)] * n
+    elif t == 6:    # small population (pin tolerance switch) with charges, both optimisation types
+        d = gen_spec(rng, ty=rng.choice(["to_humans", "to_animals"]), solvable=True, nmax=12)
+        d["pop"] = dy(rng, 1e5, 9e6)
+        d["need"] = d["pop"] * d["kcals_monthly_pp"] / 1e9
+        n = d["NM"]
+        d.update(add_cr=True)
+        d["crops_prod"] = [dy(rng, 0.5, 3) * d["need"] for _ in range(n)]
+        if d["ty"] == "to_humans":
+            d["feed_charge"] = [x / 8 for x in d["crops_prod"]]
+            d["biofuel_charge"] = [x / 16 for x in d["crops_prod"]]
+    else:           # seaweed with growth, harvest needed, moderate caps
+        d = gen_spec(rng, ty="to_humans", solvable=True, nmax=10)
+        n = d["NM"]
+        d.update(add_sw=True, sw_kcals=0.5, sw_init=dy(rng, 1, 50), sw_init_area=1.0, sw_max_density=4000.0,
+                 sw_min_density=400.0, sw_harvest_loss=15.0, cap_sw_h=rng.choice([10.0, 30.0, 100.0]), w_sw=rng.choice([0.0, 25.0]))
+        d["built_area"] = sorted(dy(rng, 1, 30) for _ in range(n))
+        d["growth"] = [dy(rng, 0, 150) for _ in range(n)]
+    return d
+
+
+def _set_meat(d, mm):
+    d["meat_monthly"] = mm
+    run, acc = [], 0.0
+    for x in mm:
+        acc += x
+        run.append(acc)
+    d["meat_running"] = run
+    d["meat_total"] = acc
+
+
+def _resize(d, n, rng):
+    """rebuild every series of d for horizon n (values redrawn)"""
+    old = d["NM"]
+    d["NM"] = n
+    for k in SERIES:
+        v = list(d[k])
+        if not v:
+            v = [0.0]
+        while len(v) < n:
+            v.append(v[rng.randrange(len(v))])
+        d[k] = v[:n]
+    d["built_area"] = sorted(d["built_area"])
+    d["scp_prod"] = sorted(d["scp_prod"])
+    d["cs_prod"] = sorted(d["cs_prod"])
+    _set_meat(d, d["meat_monthly"])
+    if d["built_area"]:
+        d["sw_init"] = min(d["sw_init"], d["sw_max_density"] * d["built_area"][0])
+        d["built_area"][0] = max(d["built_area"][0], d["sw_init_area"])
+        d["built_area"] = sorted(d["built_area"])
     return d
